@@ -387,6 +387,26 @@ func runC03(c *Ctx) error {
 			}
 		}
 	}
+	// printing values that contain themselves (through containers of any, of every key kind, and structs): the
+	// printer must cut the cycle - unbounded recursion is a Go stack overflow, fatal to the host
+	for _, src := range []string{
+		"m := map[int]any{}\nm[2] = m\nprintln(m)", "m := map[string]any{}\nm[\"a\"] = m\nprintln(m)",
+		"m := map[float64]any{}\nm[1.5] = m\nprintln(m)", "m := map[bool]any{}\nm[true] = m\nprintln(m)",
+		"s := []any{1}\ns[0] = s\nprintln(s)", "m := map[int]any{}\ns := []any{m}\nm[0] = s\nprintln(m)\nprintln(s)",
+		"import \"fmt\"\nm := map[int]any{}\ns := []any{m}\nm[0] = s\nx := fmt.Sprint(m)\nprintln(len(x) > 0)",
+		"type T struct {\n\tN *T\n\tL []any\n\tM map[int]any\n}\nt := &T{}\nt.N = t\nt.L = append(t.L, t)\nt.M = map[int]any{1: t}\nprintln(t)",
+		"m := map[int]any{}\nm[1] = m\npanic(m)", "a := map[int]any{}\nb := map[string]any{}\na[1] = b\nb[\"x\"] = a\nprintln(a, b)",
+	} {
+		k := c03Case{Kind: "eval", Src: src}
+		c.Pending(map[string]any{"kind": "eval", "src": src, "note": "printing a self-containing value"})
+		verdict, _ := k.run()
+		c.PendingDone()
+		c.Rep.Oracle["no-escape"]++
+		c.Rep.Count("eval-cyclic-print")
+		if verdict != "" {
+			c.Rep.Violate(Violation{Kind: "crash", Cut: "no-escape", Input: k, Impl: verdict, Oracle: "returns to the host with values or a staged error"})
+		}
+	}
 	for i, k := range c.c03Cases(n) {
 		verdict, et := k.run()
 		key, _ := json.Marshal(k)
